@@ -9,7 +9,9 @@ Local Open Scope string_scope.
 Record case := Case {
   k_texts : list (string * string);   (* configuration files: nginx.conf first *)
   k_others : list string;             (* other file paths of the set *)
-  k_keys : list string                (* keys of matches.json *)
+  k_keys : list string;               (* keys of matches.json *)
+  k_twins : list string               (* part of the INPUT: for every namespace/name borne by both an HTTPRoute and a GRPCRoute of the
+                                         state, the stem group_<ns>__<name>_rule of their backend group variables *)
 }.
 
 Definition errors_of (c : case) : list string := check_fileset (k_texts c) (k_others c) (k_keys c).
@@ -19,8 +21,10 @@ Fixpoint contains_l (sub s : list Ascii.ascii) : bool :=
 Definition contains (sub s : string) : bool := contains_l (chars_of sub) (chars_of s).
 
 (* classes of recorded findings, decided from the complaint itself *)
-Definition classify (e : string) : nat :=
-  if has_prefix "unknown variable group_" e then code_known 5          (* D5: dots survive in variable names *)
+Definition classify (twins : list string) (e : string) : nat :=
+  if existsb (fun t => has_prefix ("unknown variable " ++ t)%string e) twins then code_known 51
+       (* D51: the backend groups of an HTTPRoute and a GRPCRoute of one name are one group: the kept one needs no split_clients *)
+  else if has_prefix "unknown variable group_" e then code_known 5          (* D5: dots survive in variable names *)
   else if has_prefix "duplicate variable definition $group_" e then code_known 6   (* D6: - and _ collide *)
   else if has_prefix "invalid regular expression ^" e then code_known 7  (* D7: path inserted unescaped into a rewrite regex *)
   else if has_prefix "unix socket path too long" e then code_known 10    (* D10 *)
@@ -35,4 +39,4 @@ Definition classify (e : string) : nat :=
 Fixpoint dedup_nat (l : list nat) : list nat :=
   match l with [] => [] | x :: l' => if existsb (Nat.eqb x) l' then dedup_nat l' else x :: dedup_nat l' end.
 
-Definition check_case (c : case) : list nat := dedup_nat (map classify (errors_of c)).
+Definition check_case (c : case) : list nat := dedup_nat (map (classify (k_twins c)) (errors_of c)).
